@@ -391,6 +391,11 @@ impl Gen {
         if growing && d < grow_p {
             return (0, Op::Insert { k: self.fresh(), v: self.rng.below(1000) });
         }
+        // reach the split phase more often than plain growth does: a `reserve` beyond the free room
+        // parks everything (and needs ⌈len/R⌉ key-adding calls to finish)
+        if !split && len >= 9 && self.rng.chance(1, 7) {
+            return (0, Op::Reserve { n: (o.cap - o.len.min(o.cap)) + 1 + self.rng.below(4) as usize });
+        }
         let has1 = w.map(1).is_some();
         let weights: &[(u32, u8)] = match self.slice {
             Slice::Entry => &[(10, 0), (5, 1), (5, 3), (40, 6), (3, 7), (2, 9), (2, 10), (3, 11), (2, 12)],
@@ -407,6 +412,15 @@ impl Gen {
                 break;
             }
             pick -= wgt;
+        }
+        // … and stay there: two times out of three, trade a call that ends the phase for one that does not
+        if split && matches!(code, 0 | 9 | 13 | 16) && self.rng.chance(2, 3) {
+            code = match self.slice {
+                Slice::Iter => *self.rng.pick(&[11u8, 12, 7, 8, 3]),
+                Slice::Entry => *self.rng.pick(&[6u8, 6, 3, 1]),
+                Slice::Clone => *self.rng.pick(&[14u8, 15, 17, 18, 3]),
+                _ => *self.rng.pick(&[2u8, 4, 11, 12, 3, 1, 6, 7, 8]),
+            };
         }
         match code {
             0 => (0, Op::Insert { k: self.fresh(), v: self.rng.below(1000) }),
